@@ -273,6 +273,10 @@ def run(res, tier, seed, replay_script=None):
         for si, st in enumerate(steps):
             t = st.cmd.split()
             replay = {"kind": "impl-counterexample", "script": script}
+            if st.exc is not None and st.exc[0] == "hang" and not gl.still_hangs(drv, script, st.cmd, wd, long_timeout=400):
+                stats["slow_calls_skipped"] = stats.get("slow_calls_skipped", 0) + 1     # completed under the long limit (or not re-run): slow, not a hang
+                aborted = True
+                break
             if st.exc is not None and (st.exc[0] == "hang" or st.exc[0].startswith("crash")):
                 stats["violations"] += 1
                 key = ("does-not-terminate:" if st.exc[0] == "hang" else "crash:") + t[0] + ":" + fam
@@ -377,6 +381,7 @@ def run(res, tier, seed, replay_script=None):
                       {"kind": "proof-break", "theorems": props["theorems"], "log": props["log"][-3000:]}, no_input=True)
     if not ok_ext and not res.violations:
         res.violation("extraction", "extraction of the model failed", {"kind": "proof-break", "log": elog[-2000:]}, no_input=True)
+    res.coverage["slow_calls_completed_under_the_long_limit_skipped"] = stats.get("slow_calls_skipped", 0)
     res.coverage.update({
         "evaluations": stats["states"] + len(ucases), "distinct_nontrivial": nontrivial,
         "rule": "case = make (random family, nested rules; limits given at make in half of the cases) ; load ; 1-6 of: refinement of a random strategy / "
